@@ -89,13 +89,24 @@ func (a *Authority) Validate() error {
 	if a == nil {
 		return nil
 	}
+	return a.ValidateWith(a.LoadProvisionerByName)
+}
+
+// ValidateWith is Validate with the provisioners looked up through load. The
+// signing authority revalidates its SCEP authority while it holds the lock that
+// its own LoadProvisionerByName takes, so it has to pass a lookup that does
+// not take that lock again.
+func (a *Authority) ValidateWith(load func(name string) (provisioner.Interface, error)) error {
+	if a == nil {
+		return nil
+	}
 
 	a.provisionersMutex.RLock()
 	defer a.provisionersMutex.RUnlock()
 
 	noDefaultDecrypterAvailable := a.defaultDecrypter == nil
 	for _, name := range a.scepProvisionerNames {
-		p, err := a.LoadProvisionerByName(name)
+		p, err := load(name)
 		if err != nil {
 			return fmt.Errorf("failed loading provisioner %q: %w", name, err)
 		}
